@@ -19,10 +19,10 @@ PID = "C14"
 PROPS = [("theories/RangeTask/Props.v", "RangeTask.Props")]
 AREAS = ["theories/RangeTask"]
 NORMALISATIONS = [
-    "N1 ScanLock: mocktikv ignores StartKey/EndKey/Limit; the wrapping client keeps keys >= start, < end, in key order, first `limit` (TiKV's contract)",
+    "N1 ScanLock window/limit: VERIF_C14_N1=off|auto|on, default off since fix F42 (auto = only when the start-up probe finds that the store ignores StartKey/EndKey/Limit (mock_probe.scan_lock_honours_start_key / _limit, n1_active of this run): the wrapping client keeps keys >= start, < end, in key order, first `limit`); with the default a store that ignores the window again is reported from the probe. Class rawscan always runs on the store's own answers (property oracles only). VERIF_C14_STRICT=1 switches every normalisation off",
     "N1T ScanLock lock_type: only when VERIF_C14_N1T=auto|on (default off; see mock_probe.scan_lock_returns_lock_type / n1t_active of this run): fill lock_type from the MVCC debugger. Until fix F41 mocktikv's ScanLock returned no lock_type and the harness filled it unconditionally, which masked that BatchResolveLocks then treats a stale-primary pessimistic lock as a prewrite lock and rolls back a committed transaction's secondary",
     "N2 ResolveLock{TxnInfos}: only when VERIF_C14_N2=auto|on (default off since the mock honours TxnInfos, fix 448a517; see mock_probe.n2_mode / n2_active of this run): the wrapping client issues one single-transaction ResolveLock per TxnInfo with the same region context. With the default, a mock that ignores TxnInfos again is reported by the lock audit (and by the probe case) as a violation",
-    "N3 DeleteRange{NotifyOnly}: mocktikv deletes anyway; the wrapping client answers notify-only requests itself after an epoch check",
+    "N3 DeleteRange{NotifyOnly}: VERIF_C14_N3=off|auto|on, default off since fix F43 (auto = only when the probe finds that the store deletes on notify-only (mock_probe.delete_range_notify_only_honoured, n3_active): the wrapping client answers notify-only requests itself after an epoch check); with the default the notify class of C14_delete_range_exact runs against the store itself",
     "N3u (unistore tier): unistore's DeleteRange panics on an unbounded end key; the wrapping client forwards ff ff ff ff; delete-range audit by snapshot reads (unistore's MvccGetByKey panics on a removed key)",
     "N1u (unistore tier): unistore's ScanLock ignores StartKey/EndKey and counts the limit from the region start; the wrapping client requests everything and applies TiKV's contract; lock values are taken from the script (ScanLock reports none)",
     "populations are written and audited directly through the mock's MVCCStore interface (Prewrite/PessimisticLock/Commit/Rollback/MvccGetByKey), not through region-routed RPCs",
@@ -141,6 +141,7 @@ class Ctx:
         self.samples = {}
         self.oracle_evals = 0
         self.mismatches = 0
+        self.mock = {}
 
     def ask(self, qid, line, cb):
         self.queries.append(line)
@@ -464,7 +465,11 @@ def do_gc(cx, res):
                 ambiguous = True    # missing + plain lock: whether the fallback fires depends on the region grouping; the outcome is a rollback either way
     if ambiguous:
         cx.stats["gc:trace-skipped-fallback-ambiguous"] += 1
-    if c.get("mode", "custom") == "custom" and c.get("conc", 1) == 1 and not ambiguous:
+    store_contract = bool(cx.mock.get("scan_lock_honours_start_key")) and bool(cx.mock.get("scan_lock_honours_limit"))
+    raw_scan = (not uni) and (not store_contract) and (bool(c.get("raw")) or not cx.mock.get("n1_active", True))
+    if raw_scan:
+        cx.stats["gc:raw-scan-answers(no trace comparison)"] += 1
+    if c.get("mode", "custom") == "custom" and c.get("conc", 1) == 1 and not ambiguous and not raw_scan:
         calls = gc_oracles_from_events(evs)
         if any(o.endswith(":N") and tr[i][2] for _, _, os_, tr in calls for i, o in enumerate(os_)):
             cx.stats["gc-feature:rescan-after-region-change"] += 1
@@ -691,7 +696,7 @@ def main(tier, replay):
         else:
             for line in out.splitlines():
                 if line.startswith("MOCK\t"):
-                    mock = json.loads(line[5:])
+                    mock = json.loads(line[5:]); cx.mock = mock
                 elif line.startswith("RES\t"):
                     results.append(json.loads(line[4:]))
             setup_errs = [r for r in results if r.get("setup_err")]
@@ -725,6 +730,15 @@ def main(tier, replay):
                             "case": {"kind": "probe", "script": mock.get("raw_probe_script")}, "impl": mock,
                             "violated": "GCResolveLockPhase(safe point 100) left %d locks of the committed transaction 5: the storage side ignores ResolveLock{TxnInfos}" % mock["raw_mock_gc_locks_left"],
                             "what": "property oracle failed on the implementation (mock store + client)"}, True))
+    if mock and not mock.get("n1_active") and not (mock.get("scan_lock_honours_start_key") and mock.get("scan_lock_honours_limit")):
+        cx.viol.insert(0, ({"kind": "property-oracle", "oracle": "ScanLock contract probe (start_key / end_key / limit)",
+                            "case": {"kind": "probe", "script": "locks on s (and x1, x2); ScanLock{start_key: t, limit: 1} must return nothing below t; ScanLock{limit: 1} must return one lock"},
+                            "impl": mock, "violated": "the store ignores ScanLock's window or limit: the client's limit / continue-from-the-last-lock path is not exercised and the per-iteration trace cannot be compared",
+                            "what": "store contract probe failed (no normalisation active)"}, True))
+    if mock and not mock.get("n3_active") and mock.get("delete_range_notify_only_honoured") is False:
+        cx.viol.insert(0, ({"kind": "property-oracle", "oracle": "C14_delete_range_exact(notify-only deletes nothing) probe",
+                            "case": {"kind": "probe", "script": "committed put on p; DeleteRange{[p,pz), notify_only}; the data must still be there"},
+                            "impl": mock, "violated": "notify-only DeleteRange removed the data", "what": "store contract probe failed (no normalisation active)"}, True))
     oracle_fail = [x for x in cx.viol if x[1]]
     seen = set()
     for obj, has_input in (oracle_fail or cx.viol):
